@@ -307,6 +307,8 @@ func doTaggedErr(c *req.Client, base, tag, kind, round string, clone bool, dump 
 
 var lastErr sync.Map // tag -> *string
 
+var timeoutRe = regexp.MustCompile(`(?i)timeout|deadline exceeded|no recent network activity`)
+
 func noteErr(tag string, err error) {
 	if v, ok := lastErr.Load(tag); ok && err != nil {
 		*(v.(*string)) = err.Error()
@@ -707,6 +709,10 @@ func runMux(cr *childResult, rng *hk.Rand, c *req.Client, base string, o *origin
 				}
 				if errored && kind == "abort" {
 					cr.count(label + ".requests_aborted_by_origin") // the origin reset this stream only
+				} else if errored && timeoutRe.MatchString(errText) {
+					// a handshake / idle timeout of a few seconds on an overloaded machine is not
+					// the library's doing; requests that hang for good are caught by stall:*
+					cr.count(label + ".requests_timed_out")
 				} else if errored {
 					cr.count(label + ".requests_errored")
 					// the origins of these phases answer every request and nothing closes a
